@@ -38,6 +38,9 @@ POOL = [
     ('text', '[1000.800] looks like a stamp but is not a message', None),
     ('msg', '[1000.850] zz_unknown_iface@7.long_one("' + 'x' * 5000 + '", 1)', 'long_one'),       # a line longer than any read-size limit
     ('text', 'chatter ' + 'y' * 9000, None),
+    # a message line the writer did not finish (cut off inside a string / after the parenthesis): chatter like any other, and the next line is its own line
+    ('text', '[1000.900]  -> zz_unknown_iface@7.set_title("cut off in the midd', None),
+    ('text', '[1000.910] zz_unknown_iface@7.poke(', None),
 ]
 # the two connections variant (current dialect with connection tags)
 POOL2 = [
@@ -102,6 +105,10 @@ def stream(ctx, case):
     util.color_output = False
     wl.Message.base_time = None
     idx = [ctx.choose(list(range(len(pool))), 'line%d' % k) if (k > 0 or first is None) else first for k in range(n)]
+    if len(case) > 4:
+        # a scripted beginning (the same chatter line many times over, with messages in between), then the chosen lines
+        idx = list(case[4]) + idx
+        n = len(idx)
     # well-formedness in the sense of C02: an id is created once (until deleted) and deleted only while it exists
     alive = set()
     creates = {'get_registry': 2, 'get_registry2': 9, 'sync': 3}
@@ -252,8 +259,15 @@ def obligations(tier):
     for n in range(1, (4 if tier == 'quick' else 5) + 1):
         for supress in (False, True):
             cases.append((2, n, supress))
+    # the same line of program output again and again (a warning per frame, blank lines), with and without messages in between
+    texts = [k for k, e in enumerate(POOL) if e[0] == 'text' and len(e[1]) < 100]
+    m1, m2 = 0, 1
+    for supress in (False, True):
+        for t in texts:
+            cases.append((1, 1, supress, None, (t, t, t, t, t)))
+            cases.append((1, 1, supress, None, (t, m1, t, t, m2, t, t, t)))
     cases.sort(key=lambda c: -c[1])
-    bounds = 'pool 1 (%d line kinds, one connection): streams of <= %d lines; pool 2 (%d line kinds, two tagged connections): <= %d lines; last line with/without newline; --supress on/off' % (
+    bounds = 'pool 1 (%d line kinds, one connection): streams of <= %d lines; pool 2 (%d line kinds, two tagged connections): <= %d lines; last line with/without newline; --supress on/off; plus streams that begin with one chatter line 5-6 times over (messages in between)' % (
         len(POOL), n1, len(POOL2), 4 if tier == 'quick' else 5)
     return [
         Ob('stream-conservation', 'symx', 'item sequence, passthrough text, --supress, pacing at every readline, notices', FUNCS, bounds, stream, cases=cases,
